@@ -418,15 +418,15 @@ func shellSizes() {
 // ---------------------------------------------------------------------------- FunctionJob
 
 type funcObs struct {
-	Kind      string `json:"kind"`
-	Variant   string `json:"variant"`
-	FnErr     bool   `json:"fn_err"`      // the function returned a non-nil error
-	RetSame   bool   `json:"ret_same"`    // Execute returned exactly the function's error (errors.Is / nil)
-	Status    int    `json:"status"`
-	ErrSame   bool   `json:"err_same"`    // Error() is the function's error (nil when none)
-	ResultOK  bool   `json:"result_kept"` // Result() == what the function returned
-	ResultZero bool  `json:"result_zero"` // Result() == zero value
-	CtxSame   bool   `json:"ctx_same"`    // the function received the context passed to Execute
+	Kind       string `json:"kind"`
+	Variant    string `json:"variant"`
+	FnErr      bool   `json:"fn_err"`   // the function returned a non-nil error
+	RetSame    bool   `json:"ret_same"` // Execute returned exactly the function's error (errors.Is / nil)
+	Status     int    `json:"status"`
+	ErrSame    bool   `json:"err_same"`    // Error() is the function's error (nil when none)
+	ResultOK   bool   `json:"result_kept"` // Result() == what the function returned
+	ResultZero bool   `json:"result_zero"` // Result() == zero value
+	CtxSame    bool   `json:"ctx_same"`    // the function received the context passed to Execute
 }
 
 func funcCases() {
